@@ -7,7 +7,7 @@ TRUSTED_BASE = [
     "Rust harness /verif/harness (drives the real code, dumps its state), python orchestrator ./check",
     "HashMap/DashMap as finite maps, VecDeque as a list, monotone Instant, fastrand as an arbitrary choice < len",
     "source translators checklib/static_scopes.py (lock / RefCell nesting -> Generated/*.lean, C16s / C17s) and checklib/static_sites.py (lock-site inventory): lexical scanners, trusted",
-    "source translator checklib/rust2lean.py (pure helper code of memory_estimator.rs, utils.rs, cache_entry.rs, stats.rs, eviction_policy.rs and the victim scans + insert / is_already_key_inserted / handle_entry_limit_eviction of async_global_cache.rs -> Generated/Pure*.lean, theorems T01..T19): a parser + emitter for the Rust subset these files use, trusted; the meaning of the library calls (usize subtraction, VecDeque / HashMap / iterator methods, atomics, f64 as an abstract structure) is the hand-written Cachelito/RustLite.lean, trusted; Rust's trait resolution (which MemoryEstimator impl a shape uses) is transcribed in Cachelito/Source/Mem.lean",
+    "source translator checklib/rust2lean.py (pure helper code of memory_estimator.rs, utils.rs, cache_entry.rs, stats.rs, eviction_policy.rs and the victim scans + insert / is_already_key_inserted / handle_entry_limit_eviction of async_global_cache.rs -> Generated/Pure*.lean, theorems T01..T20): a parser + emitter for the Rust subset these files use, trusted; the meaning of the library calls (usize subtraction, VecDeque / HashMap / iterator methods, atomics, f64 as an abstract structure) is the hand-written Cachelito/RustLite.lean, trusted; Rust's trait resolution (which MemoryEstimator impl a shape uses) is transcribed in Cachelito/Source/Mem.lean",
 ]
 
 HOOK_COMMITS = [
@@ -219,7 +219,7 @@ PROPS = {
         "technique": TECH, "design_ref": "DESIGN.md §7 C11", "assumptions": [],
     },
     "C12": {
-        "lean_modules": ["Cachelito.Props.C12", "Cachelito.Props.C12r", "Cachelito.Props.T13", "Cachelito.Props.T19"],
+        "lean_modules": ["Cachelito.Props.C12", "Cachelito.Props.C12r", "Cachelito.Props.T13", "Cachelito.Props.T19", "Cachelito.Props.T20"],
         "streams": [macro_stream(nontrivial=["group-invalidation-hit"]), reg_stream(),
                     sched_stream(nontrivial=['concurrent-tag', 'concurrent-cache', 'concurrent-event'], quick=(6, 8, 60), what="L3: scheduled runs in which group / name invalidations race with calls: a call that starts after an invalidation has COMPLETED is never served an entry stored before that invalidation began")],
         "monitors": ["C12"],
@@ -229,7 +229,7 @@ PROPS = {
         "technique": TECH, "design_ref": "DESIGN.md §7 C12", "assumptions": ["distinct cache names"],
     },
     "C13": {
-        "lean_modules": ["Cachelito.Props.C13", "Cachelito.Props.C12r", "Cachelito.Props.T02", "Cachelito.Props.T13", "Cachelito.Props.T19"],
+        "lean_modules": ["Cachelito.Props.C13", "Cachelito.Props.C12r", "Cachelito.Props.T02", "Cachelito.Props.T13", "Cachelito.Props.T19", "Cachelito.Props.T20"],
         "streams": [macro_stream(nontrivial=["conditional-invalidation-removed", "group-invalidation-hit"]), reg_stream(),
                     sched_stream(nontrivial=['concurrent-with', 'concurrent-allwith'], quick=(6, 8, 60), what="L3: scheduled runs in which conditional invalidations race with calls: a key matched by a completed invalidate_with / invalidate_all_with is not served from an entry stored before it began; non-matching caches and keys are untouched at quiescence (dump replayed on the interleaving model)")],
         "monitors": ["C13"],
